@@ -524,6 +524,11 @@ class XsdAttributeGroup(
                     assert isinstance(base_attr, XsdAnyAttribute), "invalid base attribute"
 
                     if self.derivation == 'extension':
+                        if attr.parent is not self:
+                            # The wildcard of a referenced attribute group is shared with
+                            # every other user of that group: extend a copy of it.
+                            attributes[None] = attr = copy(attr)
+                            attr.parent = self
                         try:
                             attr.union(base_attr)
                         except ValueError as err:
